@@ -94,6 +94,9 @@ class PatternRewriter:
         self._rec("move_region", region)
         return region
 
+    def erase_block_argument(self, arg, safe_erase=True):
+        self._rec("erase_block_argument", arg)
+
     def insert_block_argument(self, block, index, typ):
         self._rec("insert_block_argument", block, index, typ)
         return None
